@@ -11,10 +11,11 @@ INV = ['Bounded', 'PendOnlyWhenEmpty']
 PROPS = ['AcquireTakesOne', 'ReleaseGivesOne', 'ClearRestores', 'ResizeByOne']
 
 
-def consts(init, maxb, fine, locked=False, pend=1):
+def consts(init, maxb, fine, locked=False, pend=1, finerel=False):
     return dict(InitBound=str(init), MaxBound=str(maxb), MaxPend=str(pend),
                 FineClear='TRUE' if fine else 'FALSE',
-                ClearLocked='TRUE' if locked else 'FALSE')
+                ClearLocked='TRUE' if locked else 'FALSE',
+                FineRelease='TRUE' if finerel else 'FALSE')
 
 
 def sem_level(ctx):
@@ -28,6 +29,15 @@ def sem_level(ctx):
                     [{'from': g.state[k], 'act': a, 'to': g.state[t]}
                      for k in g.inits for a, t in g.out[k]][:3]}, limit=2)
         recipe.conform(ctx, 'sem-coarse-%d-%d' % (init, maxb), g, SemAdapter,
+                       mon_module='SemMonitor', mon_invariants=INV, mon_properties=PROPS,
+                       mon_constants=c)
+    # two threads release slots (result handler, supervisor): the second one's call is parked at
+    # the lock boundary while the first one's runs
+    for init, maxb in ([(2, 3)] if not thorough else [(1, 2), (2, 3), (3, 4)]):
+        c = consts(init, maxb, fine=False, finerel=True)
+        _, g = recipe.design_check(ctx, 'sem-finerelease-%d-%d' % (init, maxb), 'Sem', c,
+                                   invariants=INV, properties=PROPS, emit=True)
+        recipe.conform(ctx, 'sem-finerelease-%d-%d' % (init, maxb), g, SemAdapter,
                        mon_module='SemMonitor', mon_invariants=INV, mon_properties=PROPS,
                        mon_constants=c)
     # clear() racing with the threads that release slots: two-step clear
